@@ -1,3 +1,4 @@
+import Rtcm.Lemmas.Helpers
 import Rtcm.Model.Names
 import Rtcm.Model.WF
 import Rtcm.Gen.Tables
@@ -108,5 +109,19 @@ theorem C18_coeff_run (T : Tables) (m : Msg) (field : Label) (lyr : Nat) :
       rw [show i + 1 + vs.length = i + (vs.length + 1) by omega]
       exact hend
     · simp at hf; omega
+
+/-! ### `tow2utc`: the epoch helper that turns a GPS time of week (ms) into a UTC time of day -/
+
+/-- the result is always a valid time of day with whole milliseconds -/
+theorem C18_tow2utc_valid (tow : Int) :
+    (tow2utc tow).h < 24 ∧ (tow2utc tow).m < 60 ∧ (tow2utc tow).s < 60 ∧ (tow2utc tow).us < 1000000 ∧
+      (tow2utc tow).us % 1000 = 0 := tow2utc_range tow
+
+/-- it depends on the time of week only modulo one day (hence also modulo the GPS week) -/
+theorem C18_tow2utc_periodic (tow k : Int) : tow2utc (tow + 86400000 * k) = tow2utc tow :=
+  tow2utc_periodic tow k
+
+/-- the 18 leap seconds: TOW 18 s is UTC midnight; TOW 0 is 23:59:42 of the previous day -/
+example : tow2utc 18000 = ⟨0, 0, 0, 0⟩ ∧ tow2utc 0 = ⟨23, 59, 42, 0⟩ ∧ tow2utc 604799999 = ⟨23, 59, 41, 999000⟩ := by decide
 
 end Rtcm
